@@ -89,11 +89,15 @@ class V:
     # ---- arrays / tensors
     def array(self, name, shape, kind="real"):
         """numpy array: object array of proxies (sym/pconst) or a typed array (real)"""
+        npdt = {"real": np.float32, "int": np.int64, "flag": np.int64, "bool": np.bool_}[kind]
+        if not shape:
+            x = self.scalar(name, kind)
+            return npdt(x) if self.mode == "real" else x
         e = np.empty(shape, dtype=object)
         for idx in np.ndindex(*shape):
-            e[idx] = self.scalar(f"{name}{list(idx)}" if shape else name, kind)
+            e[idx] = self.scalar(f"{name}{list(idx)}", kind)
         if self.mode == "real":
-            return e.astype({"real": np.float32, "int": np.int64, "flag": np.int64, "bool": bool}[kind])
+            return e.astype(npdt)
         return e
 
     def tensor(self, name, shape, kind="real", dtype=None):
